@@ -439,15 +439,17 @@ def eval_point(rng, spec, lo=0.5, hi=20.0):
 
 def eval_points(rng, spec, n, lo=0.5, hi=20.0):
     """n evaluation points for ONE model object: the second point repeats the state and time of the first with other parameter values,
-    the third keeps the parameters of the second at a new state and time (an evaluator must depend on exactly (x, t, theta) in force,
-    whatever was evaluated before)."""
+    the third keeps the parameters of the second at a new state and time, the fourth keeps state and parameters of the third at another
+    time (an evaluator must depend on exactly (x, t, theta) in force, whatever was evaluated before)."""
     pts = []
     for i in range(n):
         x, t, th = eval_point(rng, spec, lo, hi)
-        if i % 3 == 1 and pts:
+        if i % 4 == 1 and pts:
             x, t = list(pts[-1][0]), pts[-1][1]
-        elif i % 3 == 2 and pts:
+        elif i % 4 == 2 and pts:
             th = list(pts[-1][2])
+        elif i % 4 == 3 and pts:       # the fourth: state and parameters of the third at ANOTHER time
+            x, th = list(pts[-1][0]), list(pts[-1][2])
         pts.append((x, t, th))
     return pts
 
